@@ -1241,7 +1241,13 @@ LEVEL_TEXT = ("Proved in Lean 4 about the executable model AslModel.HttpFrame (t
               "reused_request_length_rederived / reused_request_roundtrip — a request object that is sent again: whatever Content-Length "
               "an earlier put() or send left in its dictionary (stale, or removed by a chunked send), Http::request derives the length "
               "anew for a non-empty body, the message is that of a fresh object and the handler reads exactly this send's body (the op "
-              "reuse runs 2..5 sends of ONE HttpRequest with framing, body and method changed in between against the real server). "
+              "reuse runs 2..5 sends of ONE HttpRequest with framing, body and method changed in between against the real server); "
+              "target_parts_exact / encoded_path_observed / handler_sees_sent_target — the request target: for every non-empty encoded "
+              "path without ? and #, every query string without # and every fragment (each present or not; a ? after the # stays in the "
+              "fragment) HttpRequest::read yields exactly the decoded path, that query string and that fragment; a path p (not empty, "
+              "no NUL, no ..) sent as Url::encode(p) in either mode (full-URL mode: p without ? and #) reaches the handler as p, on "
+              "every connection state, with any framing (K: the H line of every req/raw/xchg op prints path, querystring and the "
+              "query dictionary; generated targets carry escapes, queries and #frag?x). "
               "The model is tied to the real "
               "library on every run by the correspondence check over loopback TCP (real client, real server, raw-socket peers on either "
               "side, every op compared with the compiled model) and the block sizes by the translator.")
@@ -1275,9 +1281,10 @@ LEVEL_NOTE = ("Model lemmas, not property clauses (one-step unfoldings of model 
               "byte for byte) and dl (concurrent file/range downloads with per-file, per-offset content, every byte verified, incl. the "
               "deterministic overlap where one handler sleeps in send() mid-block while others run); OS interleavings are sampled, not "
               "enumerated. (2) bodies of JSON values (C05's encoder: only the transport of the encoded text is checked, oracle J1) and "
-              "multipart uploads (random boundary: oracle U1). (3) the target -> path/query decoding (splitTarget is returned as is by "
-              "the request theorems; Url::decode/parseQuery are C15's/C09's; K with upper/lower/mixed-case escapes against python's "
-              "unquote) and the Range header text parser (range_spec / file_response_roundtrip start from the integers b, e); the loop "
+              "multipart uploads (random boundary: oracle U1). (3) of the target -> path/query decoding, the split and the path are proved (target_parts_exact, "
+              "encoded_path_observed; Url::decode of malformed escapes is C15's url_decode_total), the query VALUES are not: "
+              "HttpFrame.parseQuery has no theorem here (C15 proves query_roundtrip about its own transcription of Url::parseQuery, C09 "
+              "about its own; K with upper/lower/mixed-case escapes against python's unquote) and the Range header text parser (range_spec / file_response_roundtrip start from the integers b, e); the loop "
               "of redirect following (at most 4 hops, then 421; only the target of a hop has theorems), OPTIONS/405/whole-file/416 post-processing of HttpServer::serve are in the model and K-validated only. "
               "(4) bodies above 300 KiB (up to 8 MiB) are checked by digest oracle only. (5) exchange_roundtrip assumes no Expect "
               "header (with Expect: 100-continue the interim answer is in serveStep_exact's wire and continue_skipped covers the "
